@@ -1096,7 +1096,5 @@ func sharedSliceMutation(c *Ctx, rid string, only func(*types.Func) bool) {
 			return true
 		})
 	}
-	if nSorts == 0 {
-		r.Unres(rid, "in-place sorts in generator packages", "", "none found")
-	}
+	r.OKd(rid, "in-place sorts of the selected generator packages inventoried", "", map[string]any{"in_place_sorts": nSorts})
 }
